@@ -1,6 +1,11 @@
 package larking
 
+import "google.golang.org/protobuf/reflect/protoreflect"
+
 func init() {
+	vfHarnesses["VerifH_match_verbs"] = VerifH_match_verbs
+	vfHarnesses["VerifH_match_delrule"] = VerifH_match_delrule
+	vfHarnesses["VerifH_addRule_fieldpaths"] = VerifH_addRule_fieldpaths
 	vfHarnesses["VerifH_match_generated"] = VerifH_match_generated
 	vfHarnesses["VerifH_match_sound"] = VerifH_match_sound
 	vfHarnesses["VerifH_match_complete"] = VerifH_match_complete
@@ -432,4 +437,142 @@ func VerifH_match_generated() {
 		}
 	}
 	vfCover("generated")
+}
+
+// VerifH_match_verbs (C01, C02): one template bound with each rule pattern kind (get, put, post,
+// delete, patch, a custom kind) to a different method index: a request with verb V reaches exactly
+// the method bound with V, and a verb nobody bound is not dispatched.
+func VerifH_match_verbs() {
+	in := schemaRoute()
+	out := newFakeMD("vf.Resp", strField("r"))
+	verbs := []string{"GET", "PUT", "POST", "DELETE", "PATCH", "LIST"}
+	root := newPath()
+	for i, v := range verbs {
+		d := &fakeMethod{full: "vf.S.V" + v, in: in, out: out}
+		if err := root.addRule(vfHTTPRule(v, "/aa/{f}"), d, "/vf.S/V"+verbs[i]); err != nil {
+			vfFail("a rule of pattern kind " + v + " was rejected")
+		}
+	}
+	k := vfChoice(len(verbs) + 1)
+	if k == len(verbs) {
+		_, _, err := root.match("/aa/zz", "OTHER")
+		vfCheck(err != nil, "a verb that no rule carries was dispatched")
+		vfCover("unbound-verb")
+		return
+	}
+	m, ps, err := root.match("/aa/zz", verbs[k])
+	vfCheck(err == nil && m != nil && m.name == "/vf.S/V"+verbs[k], "a request was not dispatched to the method whose rule carries its verb")
+	vfCheck(len(ps) == 1 && ps[0].val.String() == "zz", "capture lost")
+	vfCover("verb-" + verbs[k])
+}
+
+// VerifH_match_delrule (C02, C11): three overlapping variable bindings of three methods on one trie
+// node; after delRule of any one of them the trie must route every path exactly as a trie freshly
+// built from the two remaining rules (removal must not disturb the variable order).
+func VerifH_match_delrule() {
+	in := schemaRoute()
+	out := newFakeMD("vf.Resp", strField("r"))
+	tmpls := []string{"/v1/{f=**}", "/v1/{g=aa/*}", "/v1/{h.k=aa/bb}", "/v1/{h.c=*}"}
+	descs := make([]*fakeMethod, len(tmpls))
+	for i := range tmpls {
+		descs[i] = &fakeMethod{full: "vf.S.D" + string(rune('0'+i)), in: in, out: out}
+	}
+	name := func(i int) string { return "/vf.S/D" + string(rune('0'+i)) }
+	// registration order of the full set: identity or reversed
+	order := []int{0, 1, 2, 3}
+	if vfBool() {
+		order = []int{3, 2, 1, 0}
+	}
+	full := newPath()
+	for _, i := range order {
+		if err := full.addRule(vfHTTPRule("GET", tmpls[i]), descs[i], name(i)); err != nil {
+			vfFail("setup rule rejected: " + tmpls[i])
+		}
+	}
+	k := vfChoice(len(tmpls))
+	full.delRule(name(k))
+	fresh := newPath()
+	for _, i := range order {
+		if i == k {
+			continue
+		}
+		if err := fresh.addRule(vfHTTPRule("GET", tmpls[i]), descs[i], name(i)); err != nil {
+			vfFail("setup rule rejected: " + tmpls[i])
+		}
+	}
+	route := "/v1/" + vfAsciiString(vfLen(vfBound(5, 6)))
+	m1, ps1, e1 := full.match(route, "GET")
+	m2, ps2, e2 := fresh.match(route, "GET")
+	vfCheck((e1 == nil) == (e2 == nil), "after removing a rule the trie dispatches differently from a trie built without it")
+	if e1 != nil {
+		vfCover("not-dispatched")
+		return
+	}
+	vfCheck(m1.name == m2.name, "after removing a rule the trie picks another method than a trie built without it")
+	vfCheck(m1.name != name(k), "a removed rule still dispatches")
+	vfCheck(len(ps1) == len(ps2), "captures differ after removing a rule")
+	for i := range ps1 {
+		if len(ps1[i].fds) > 0 && len(ps2[i].fds) > 0 {
+			vfCheck(vfParamField(ps1[i]) == vfParamField(ps2[i]) && ps1[i].val.String() == ps2[i].val.String(), "captures differ after removing a rule")
+		}
+	}
+	vfCover("dispatched")
+}
+
+// VerifH_addRule_fieldpaths (C16): field paths of variables and body / response_body selectors
+// against a request type with nested, repeated and map fields: every path that resolves through
+// singular message fields (of any depth) is accepted and routes; a path through a repeated or map
+// field, through a scalar, or naming an unknown field is rejected - and nothing panics later.
+func VerifH_addRule_fieldpaths() {
+	leaf := newFakeMD("vf.Leaf", strField("id"))
+	mid := newFakeMD("vf.Mid", strField("c"), &fakeFD{name: "leaf", kind: protoreflect.MessageKind, msg: leaf})
+	in := newFakeMD("vf.FPReq",
+		strField("a"),
+		&fakeFD{name: "mid", kind: protoreflect.MessageKind, msg: mid},
+		&fakeFD{name: "mids", kind: protoreflect.MessageKind, msg: mid, list: true},
+		&fakeFD{name: "mp", kind: protoreflect.MessageKind, msg: mid, isMap: true},
+	)
+	out := newFakeMD("vf.Resp", strField("r"))
+	d := &fakeMethod{full: "vf.S.M0", in: in, out: out}
+	cases := []struct {
+		path string
+		ok   bool
+	}{
+		{"a", true}, {"mid.c", true}, {"mid.leaf.id", true},
+		{"mids.c", false}, {"mp.c", false}, {"mids.leaf.id", false},
+		{"nope", false}, {"mid.nope", false}, {"a.c", false}, {"mid.leaf.id.x", false},
+	}
+	c := cases[vfChoice(len(cases))]
+	asBody := vfBool()
+	root := newPath()
+	var err error
+	if asBody {
+		r := vfHTTPRule("POST", "/aa")
+		r.Body = c.path
+		err = root.addRule(r, d, "/vf.S/M0")
+	} else {
+		err = root.addRule(vfHTTPRule("GET", "/aa/{"+c.path+"}"), d, "/vf.S/M0")
+	}
+	if c.path == "a" && asBody {
+		// a scalar body field: whether a non-message body selector is acceptable is not settled by
+		// the property; only panic-freedom
+		vfCover("scalar-body")
+		return
+	}
+	if !c.ok {
+		vfCheck(err != nil, "a field path that does not resolve through singular message fields was accepted")
+		vfCover("rejected")
+		return
+	}
+	vfCheck(err == nil, "a well-formed field path that resolves in the request type was rejected")
+	if !asBody {
+		m, ps, merr := root.match("/aa/zz", "GET")
+		vfCheck(merr == nil && m != nil && len(ps) == 1 && ps[0].val.String() == "zz", "a path instantiated from an accepted template does not route with its capture")
+		msg := newFakeMsg(in)
+		vfCheck(params(ps).set(msg) == nil, "the capture of an accepted template cannot be stored in the request message")
+		if c.path == "mid.leaf.id" {
+			vfCover("depth-3")
+		}
+	}
+	vfCover("accepted")
 }
